@@ -144,15 +144,16 @@ def execute(plan):
         exp = []
         for p in pels:
             exp += [(p["name"],) + e for e in plug.expected_calls(p["recipe"], plugins, skip)]
-        # the property fixes which module is consulted and what it receives, not how often: an immediately
-        # repeated identical call (same module, function, arguments) is collapsed
-        act = []
-        for c in op["calls"]:
-            if not act or (act[-1][0], act[-1][1], act[-1][2]) != (c[0], c[1], c[2]):
-                act.append(c)
+        act = list(op["calls"])
         tr = []
         i = 0
-        for e in exp:
+        for ei, e in enumerate(exp):
+            # the property fixes which module is consulted and what it receives, not how often: identical
+            # repetitions of the call just matched are skipped unless the next expected call is that same call
+            nxt = exp[ei] if False else None
+            while i > 0 and i < len(act) and (act[i][0], act[i][1], act[i][2]) == (act[i - 1][0], act[i - 1][1], act[i - 1][2]) \
+                    and not plug.calls_match(e[1:], act[i]):
+                i += 1
             if i < len(act) and plug.calls_match(e[1:], act[i]):
                 b = act[i][3]
                 tr.append("%s:%s" % (plugins[e[2]]["type"], b))
@@ -182,6 +183,8 @@ def execute(plan):
                     [(c[0].split(".")[-1], c[3]) for o in ops[:ops.index(op) + 1] for c in o["calls"]][-8:])))
             break
         else:
+            while 0 < i < len(act) and (act[i][0], act[i][1], act[i][2]) == (act[i - 1][0], act[i - 1][1], act[i - 1][2]):
+                i += 1
             if i < len(act):
                 g = act[i]
                 cls = "near-miss-module-consulted" if plugins.get(g[0], {}).get("near_miss") else "unexpected-call"
